@@ -12,10 +12,21 @@ TRUSTED_BASE = [
     "Coq 8.16.1 kernel; no axioms (Print Assumptions: closed)",
     "hand-written models SchemaJson.v (serialize.rs: named node written once then by reference, namespace-relative spelling, generation-counter cycle guard), Parse.v, CanonicalForm.v tied by the correspondence run (JSON text, re-parsed node kinds / logical types / fingerprint, model vs crate)",
     "the JSON text <-> document step (serde_json) is outside the model: the theorem is about the document the writer emits",
+    "parsed documents: Python's json module gives the AST of the generated text (self-check of the generator); docgen.serde_num (how serde_json prints the "
+    "number it read from a token) and docgen.json_string / minified (compact printer, cross-checked with the extracted Json.json_text on every document) are Python-side",
 ]
 ASSUMPTIONS = [
     "proved: for every well-formed graph (distinct valid fullnames, keys in range, no unnamed-only cycle, no unconditional record cycle) the regenerated document parses back to a graph with the same canonical form, fingerprint and depth-n unfoldings for every n (names, field order, symbols, sizes, logical types with parameters), including shared and cyclic named types in any namespace arrangement; unnamed-only cycles are errors (C09_unnamed_cycle_rejected)",
-    "'parsed, unedited schema reports the original document minified' is storage of the caller's text through serde_transcode: decided on the crate (json() of parsed documents = independent minifier)",
+    "'parsed, unedited schema reports the original document minified' is storage of the caller's text through serde_transcode: decided on the crate: "
+    "Schema::json() (SchemaMut::from_str + freeze) and the avro.schema entry of a written container file header (text.parse::<Schema>(), read back by "
+    "the extracted reference parser) = the compact print of the document, text for text, against two oracles: the model's Json.json_text (extracted) of "
+    "the document's AST and an independent Python printer (docgen.minified); strings in every JSON spelling, every free position of a document",
+    "numbers: serde_json re-prints the VALUE of a number token, not the token (1e0 -> 1.0, -0 -> -0.0, 1.50 -> 1.5, integers past u64 / i64 and other "
+    "tokens are read as f64: 18446744073709551616 -> 1.8446744073709552e+19): 'the original document' is taken up to that re-printing, "
+    "specified Python-side by docgen.serde_num (not covered by the Coq model, whose AST carries the number token as serde_json prints it); the "
+    "generated tokens stay in the range where serde_json's default float reader is exact (<= 15 significant digits, |decimal exponent| <= 22, plus "
+    "fixed boundary tokens): outside of it the crate's reported number can differ from the document's in the last digit (1.5e-300 is reported as "
+    "1.4999999999999998e-300: serde_json without the float_roundtrip feature)",
 ]
 
 def logical_multiset(nodes_sx, reach=None):
@@ -31,6 +42,93 @@ def valid_names(nodes, reach):
     """fullnames of the reachable named nodes are distinct, non-empty identifiers that the parser's name handling can spell"""
     names = [nodes[k].name for k in reach if nodes[k].t in ("record", "enum", "fixed")]
     return len(set(names)) == len(names)
+
+def parsed_documents(ctx, rng, violations, diffs, samples, dist, distinct):
+    """'for a parsed, unedited schema the JSON it reports is the original document, minified, every key preserved': valid documents in
+    every spelling (DocGen: namespaces, forward references, member order) whose free positions -- doc, aliases, default values, custom
+    attributes with nested values, on schemas and on fields -- hold strings that are delicate to copy at the text level (ending in
+    backslashes, escaped quotes, control characters, non-ASCII, JSON punctuation, whitespace) in any of their JSON spellings
+    (short escapes, \\u escapes in both hex cases, surrogate pairs, \\/) and numbers in non-canonical spellings, plus the directed family
+    (every free position x every ending). Observed: Schema::json() through SchemaMut::from_str + freeze, and the avro.schema entry of
+    the header of a container file written with text.parse::<Schema>() (read back by the extracted reference parser FileSpec.ref_parse).
+    Expected: text equality with (1) D.minified = the compact print of the document's AST (strings: Json.v's json_string, numbers:
+    D.serde_num) and (2) the model's Json.json_text of the same AST."""
+    import docgen as D, cont, p_C19
+    n = 500 if ctx["tier"] == "quick" else 20000
+    docs = []
+    for label, doc in D.string_position_docs():
+        docs.append(("directed/" + label.split("/")[0], doc))
+    while len(docs) < n + len(D.STRING_POSITIONS) * len(D.STRING_ENDINGS):
+        r = rng.random()
+        if r < 0.5:
+            nodes = D.NameGraphGen(rng, logical=rng.random() < 0.3).build()
+        else:
+            nodes = G.SchemaGen(rng, max_nodes=rng.choice([1, 3, 8, 16]), max_depth=rng.choice([2, 4]),
+                                namespaces=rng.choice([("",), ("a", "a.b", "c"), ("", "a", "a.b")]), ref_prob=0.4).build()
+        for attempt in range(4):
+            dg = D.DocGen(rng, nodes, forward=rng.choice([0.0, 0.0, 0.5]), extras=rng.choice([0.5, 0.9]), rich=rng.choice([0.5, 0.9, 1.0]), loose=True)
+            try:
+                doc = dg.gen(0, None)
+            except D.Unspellable:
+                continue
+            if set(dg.occ) == dg.defined:
+                docs.append(("generated", doc))
+                break
+    texts = []
+    for label, doc in docs:
+        t = D.to_text(doc, rng)
+        # self-check of the generator: the text denotes the document (Python's JSON reader, number tokens and duplicate keys kept)
+        if p_C19.text_to_ast(t) != doc:
+            raise AssertionError("docgen.to_text wrote a text that does not read back as the document: %r" % t[:300])
+        texts.append(t)
+    plines = ["parse " + C.hx(t) for t in texts]
+    mlines = ["parse " + D.to_sx(D.norm_numbers(doc)) for _, doc in docs]
+    clines = ["cw (json %s) null 4096 %s vec (meta)" % (C.hx(t), C.hx(cont.SYNC)) for t in texts]
+    pimpl = C.run_parallel(C.AVRODRIVE, plines)
+    pmodel = C.run_parallel(C.AVROMODEL, mlines)
+    cimpl = C.run_parallel(C.AVRODRIVE, clines)
+    files, fidx = [], []
+    for i, rc in enumerate(cimpl):
+        pc = cont.parse_cw(rc) if rc.startswith("(ok") else None
+        if pc is not None and not pc.get("build_err"):
+            files.append("fileparse " + C.hx(pc["sink"]))
+            fidx.append(i)
+    fmodel = dict(zip(fidx, C.run_parallel(C.AVROMODEL, files)))
+    for i, ((label, doc), t, line, mline, ri, rm) in enumerate(zip(docs, texts, plines, mlines, pimpl, pmodel)):
+        distinct.add(line)
+        pi, pm = C.parse_sx(ri)[0], C.parse_sx(rm)[0]
+        want = D.minified(doc)
+        dist["parsed/" + label + "/" + pi[0]] += 1
+        if pi[0] in ("crash", "panic", "bad-case"):
+            violations.append({"impl_case": line, "what": "parsing a document did not return Ok or Err: %s" % ri[:100], "document": t[:800]})
+            continue
+        if pi[0] != "ok":
+            if pm[0] == "ok":
+                diffs.append({"impl_case": line, "model_case": mline, "impl": ri[:300], "model": rm[:300]})
+            continue
+        got = C.unhex(pi[4]).decode("utf-8", "replace")
+        if got != want:
+            violations.append({"impl_case": line, "what": "the JSON reported by a parsed, unedited schema (SchemaMut::from_str, freeze, Schema::json) "
+                               "is not the original document minified", "document": t[:800], "got": got[:800], "expected": want[:800]})
+        if pm[0] != "ok" or pm[4] != pi[4]:
+            diffs.append({"impl_case": line, "model_case": mline, "impl": ri[:600], "model": rm[:600],
+                          "what": "reported JSON / outcome of a parsed document: model (Json.json_text of the document) vs crate"})
+        rf = fmodel.get(i)
+        hdr = None
+        if rf is not None:
+            pf = cont.parse_fileparse(rf)
+            if pf is not None:
+                hdr = dict(pf["meta"]).get(b"avro.schema")
+        if hdr is None:
+            violations.append({"impl_case": clines[i], "what": "no container file header (with an avro.schema entry) could be written with a schema "
+                               "parsed from a valid document: %s" % cimpl[i][:120], "document": t[:800]})
+        elif hdr.decode("utf-8", "replace") != want:
+            violations.append({"impl_case": clines[i], "what": "the schema embedded in the container file header (text.parse::<Schema>(), "
+                               "WriterBuilder::build) is not the original document minified", "document": t[:800],
+                               "got": hdr.decode("utf-8", "replace")[:800], "expected": want[:800]})
+        if len(samples) < 8 and label == "generated" and "\\\\\"" in want:
+            samples.append({"document": t[:300], "reported": got[:300]})
+    return len(plines) + len(clines)
 
 def run(ctx):
     rng = random.Random(ctx["seed"] * 1000003 + 9)
@@ -142,12 +240,17 @@ def run(ctx):
             violations.append({"impl_case": line, "what": "logical types / node kinds of the re-parsed schema differ", "json": doc[:600]})
         if len(samples) < 5:
             samples.append({"json": doc[:300]})
-    return {"evaluations": len(lines) + len(jlines) + len(re_lines), "distinct_nontrivial": len(distinct),
+    n_parsed = parsed_documents(ctx, rng, violations, diffs, samples, dist, distinct)
+    return {"evaluations": len(lines) + len(jlines) + len(re_lines) + n_parsed, "distinct_nontrivial": len(distinct),
             "rule": "node graphs built through the API: name-rule graphs (colliding simple names over several namespaces incl. null-namespace records "
                     "inside namespaces, named types referenced several times through different containers, nodes stored in any order, optional "
                     "extra cycle through containers / records that passes named types every round), valid schemas with heavy sharing and three namespace arrangements, and arbitrary node "
                     "vectors (random keys: DAG sharing of unnamed nodes, cycles through named and unnamed nodes, logical annotations on any base "
                     "type); freeze -> JSON -> parse: same fingerprint, same node kinds and logical types; unnamed-only cycles must fail, through freeze and through "
                     "the regenerator alone (serde_json::to_string(&SchemaMut), bounded writer, each call in a process whose death is a result); "
-                    "model (SchemaJson.schema_json + fingerprint) vs crate text for text",
+                    "model (SchemaJson.schema_json + fingerprint) vs crate text for text; PARSED documents: valid documents in every spelling with, in every "
+                    "free position (doc, aliases, defaults, custom attributes -- nested values, on schemas and fields), strings ending in backslashes / escaped quotes / "
+                    "control and non-ASCII characters / whitespace in every JSON spelling and numbers in non-canonical spellings, plus every (free position x ending) "
+                    "directed document: Schema::json() and the avro.schema header entry of a written container file = the document minified (text equality; "
+                    "model's json_text and an independent printer)",
             "samples": samples, "violations": violations, "model_diffs": diffs, "distribution": dict(dist)}
